@@ -7,6 +7,7 @@
 package main
 
 import (
+	"context"
 	"fmt"
 	"sort"
 	"strings"
@@ -14,11 +15,188 @@ import (
 
 	"anndbverif/explore"
 	"anndbverif/vrt"
+	"anndbverif/vrt/fakes"
 	"anndbverif/world"
 
 	"github.com/marekgalovic/anndb/cluster"
+	pb "github.com/marekgalovic/anndb/protobuf"
 	"github.com/marekgalovic/anndb/storage"
+	"github.com/marekgalovic/anndb/storage/raft"
+	uuid "github.com/satori/go.uuid"
 )
+
+// scriptedGroup is the catalogue's raft group for createScenario: proposals go to one log that a single apply
+// thread consumes in order.
+type scriptedGroup struct {
+	log       chan []byte
+	processFn raft.ProcessFn
+}
+
+func (g *scriptedGroup) RegisterProcessFn(fn raft.ProcessFn) error         { g.processFn = fn; return nil }
+func (g *scriptedGroup) RegisterProcessSnapshotFn(fn raft.ProcessFn) error { return nil }
+func (g *scriptedGroup) RegisterSnapshotFn(fn raft.SnapshotFn) error       { return nil }
+func (g *scriptedGroup) LeaderId() uint64                                  { return 1 }
+func (g *scriptedGroup) Propose(ctx context.Context, data []byte) error {
+	tok := vrt.BeforeSend(g.log)
+	g.log <- data
+	vrt.After(tok)
+	return nil
+}
+
+// createScenario: the property's own observation point - the metadata returned by the real DatasetManager.Create
+// over a scripted raft.Group - for requests a client may send: plain, or carrying a partition list already (a
+// description obtained from Get/List/Create and sent again, or one naming nodes of another cluster).
+func createScenario(n, r, p int, prefill string) *explore.Scenario {
+	return &explore.Scenario{
+		Name:             fmt.Sprintf("create-N%d-R%d-P%d-request-%s", n, r, p, prefill),
+		MaxBound:         0,
+		StopWhenMainDone: true,
+		Configure:        func(s *vrt.Sched) { s.RandChoose = false; s.Horizon = 1000000; s.DelayBounding = true }, // one schedule: placement is sequential code
+		Build: func(x *explore.Exec) func(vrt.EndReason) *explore.Violation {
+			fakes.Reset()
+			world.Quiet()
+			db := world.MemDB()
+			g := &scriptedGroup{log: make(chan []byte, 16)}
+			var conn *cluster.Conn
+			var dm *storage.DatasetManager
+			x.OnCleanup(func() {
+				if conn != nil {
+					conn.Close()
+				}
+				db.Close()
+			})
+			x.S.Spawn("n1/setup", false, func() {
+				conn = newConn(n)
+				var err error
+				dm, err = storage.NewDatasetManager(g, db, raft.NewTransport(1, world.Addr(1), conn), conn, storage.NewAllocator(conn))
+				if err != nil {
+					panic(err)
+				}
+			})
+			x.Quiesce()
+			x.S.Spawn("n1/apply", false, func() {
+				for {
+					if err := g.processFn(vrt.Recv(g.log)); err != nil {
+						panic(fmt.Sprintf("apply returned %v", err))
+					}
+				}
+			})
+			req := &pb.Dataset{Dimension: 2, Space: pb.Space_Euclidean, PartitionCount: uint32(p), ReplicationFactor: uint32(r)}
+			switch prefill {
+			case "resent-description":
+				// what an earlier Create on a one-node cluster returned
+				for i := 0; i < p; i++ {
+					req.Partitions = append(req.Partitions, &pb.Partition{Id: world.ID(uint64(0x50+i), 5).Bytes(), NodeIds: []uint64{1}})
+				}
+				req.Id = world.ID(0x99, 5).Bytes()
+			case "foreign-nodes":
+				req.Partitions = append(req.Partitions, &pb.Partition{Id: world.ID(0x60, 5).Bytes(), NodeIds: []uint64{99, 1, 1}})
+			}
+			var got *pb.Dataset
+			var err error
+			done := false
+			x.S.Spawn("caller", true, func() {
+				var ds *storage.Dataset
+				ds, err = dm.Create(context.Background(), req)
+				if err == nil {
+					got = ds.Meta()
+				}
+				done = true
+			})
+			return func(end vrt.EndReason) *explore.Violation {
+				if !done {
+					return &explore.Violation{Key: "create-never-returns", Desc: strings.Join(x.S.Blocked(), "; ")}
+				}
+				if err != nil {
+					return &explore.Violation{Key: "create-fails-on-healthy-node", Desc: fmt.Sprint(err)}
+				}
+				var pl [][]uint64
+				ids := map[string]bool{}
+				for _, part := range got.Partitions {
+					pl = append(pl, part.NodeIds)
+					ids[string(part.Id)] = true
+				}
+				x.Outcome = fmt.Sprint(pl)
+				if d := clause1(pl, n, r, p); d != "" {
+					return &explore.Violation{Key: "created-dataset-wrong-cardinality-or-membership", Desc: fmt.Sprintf("request %s: %s", prefill, d)}
+				}
+				if len(ids) != p {
+					return &explore.Violation{Key: "created-dataset-partition-ids-not-distinct", Desc: fmt.Sprintf("%d distinct partition ids for %d partitions", len(ids), p)}
+				}
+				for i := 0; i < p; i++ {
+					if ids[string(world.ID(uint64(0x50+i), 5).Bytes())] || ids[string(world.ID(0x60, 5).Bytes())] {
+						return &explore.Violation{Key: "created-dataset-reuses-request-partitions", Desc: "a partition id supplied in the request was kept (it may belong to another dataset)"}
+					}
+				}
+				return nil
+			}
+		},
+	}
+}
+
+// replayScenario: "all of them current members" after a restart. A partition was placed on {1,2,3}; node 3 has
+// left the cluster; node 1 restarts: its catalogue replay loads the partition's raft group again, which replays
+// its own log (bootstrap entries naming 1, 2 and 3). The member list placement draws from must still be {1,2}.
+func replayScenario() *explore.Scenario {
+	return &explore.Scenario{
+		Name:             "placement-after-restart-with-a-departed-replica",
+		MaxBound:         0,
+		StopWhenMainDone: false,
+		Configure:        func(s *vrt.Sched) { s.RandChoose = false; s.Horizon = 2000000; s.DelayBounding = true },
+		Build: func(x *explore.Exec) func(vrt.EndReason) *explore.Violation {
+			fakes.Reset()
+			world.Quiet()
+			db := world.MemDB()
+			meta := world.DatasetMeta(2, pb.Space_Euclidean, [][]uint64{{1, 2, 3}}, 3)
+			entry := world.CreateEntry(meta, world.ID(0x701, 9))
+			var a, b *world.RNode
+			x.OnCleanup(func() {
+				if b != nil {
+					b.Close()
+				}
+				db.Close()
+			})
+			phase := func(name string, f func()) {
+				x.S.Spawn("n1/"+name, false, f)
+				x.Quiesce()
+			}
+			phase("boot", func() { a = world.NewRNode(1, db, []uint64{1, 2, 3}) })
+			phase("apply", func() {
+				if err := a.DM.VerifApply(entry); err != nil {
+					panic(err)
+				}
+			})
+			// the process stops; meanwhile node 3 leaves (the zero group's log says so when it is replayed)
+			x.S.KillPrefix("n1/")
+			a.Conn.Close()
+			phase("reboot", func() { b = world.NewRNode(1, db, []uint64{1, 2}) })
+			phase("replay", func() {
+				if err := b.DM.VerifApply(entry); err != nil {
+					panic(err)
+				}
+			})
+			var members []uint64
+			var pl [][]uint64
+			phase("place", func() {
+				members = b.Conn.NodeIds()
+				pl = b.Allocator.VerifPlacement(4, 3)
+			})
+			return func(end vrt.EndReason) *explore.Violation {
+				sort.Slice(members, func(i, j int) bool { return members[i] < members[j] })
+				x.Outcome = fmt.Sprint(members, pl)
+				if fmt.Sprint(members) != "[1 2]" {
+					return &explore.Violation{Key: "departed-node-is-a-member-again-after-restart", Desc: fmt.Sprintf("members after the restart: %v, the cluster is {1,2}", members)}
+				}
+				if d := clause1(pl, 2, 3, 4); d != "" {
+					return &explore.Violation{Key: "wrong-cardinality-or-membership", Desc: "after the restart: " + d}
+				}
+				return nil
+			}
+		},
+	}
+}
+
+var _ = uuid.Nil
 
 func newConn(n int) *cluster.Conn {
 	conn, err := cluster.NewConn(1, world.Addr(1), "")
@@ -263,11 +441,19 @@ func main() {
 	for seed := 0; seed < 8; seed++ {
 		scs = append(scs, streamScenario(seed))
 	}
+	for _, nrp := range [][3]int{{1, 1, 1}, {2, 3, 2}, {3, 2, 3}, {4, 3, 2}} {
+		for _, pre := range []string{"plain", "resent-description", "foreign-nodes"} {
+			scs = append(scs, createScenario(nrp[0], nrp[1], nrp[2], pre))
+		}
+	}
+	scs = append(scs, replayScenario())
 	explore.Main("C16", scs, explore.Plan{QuickBound: 0, ThoroughBound: 0, QuickBudget: 200 * time.Second, ThoroughBudget: 15 * time.Minute, Shards: 1},
 		"model_checking", []string{
 			"every outcome of math/rand.Shuffle (Fisher-Yates over rand.Intn) is enumerated through the scheduler's choice seam for N<=4, R<=4, P<=3; N<=16, R<=8, P in {1,2,3,5,8,16,33,64} under 8 fixed streams for the cardinality clause only",
 			"independence is checked possibilistically: the set of reachable placement tuples must equal the product of the per-partition reachable sets",
 			"the placement is observed after the call returned (as DatasetManager.Create uses it)",
 			"membership histories: add N nodes, optionally dial one, remove it, optionally add it again, then place",
+			"create scenarios: the metadata returned by the real DatasetManager.Create over a scripted raft.Group, for plain requests and requests that already carry a partition list; one fixed random stream",
+			"restart scenario: a partition group placed on {1,2,3} is replayed by a restarted node 1 after node 3 left; members and placement observed afterwards",
 		})
 }
